@@ -618,7 +618,7 @@ func (t *Table) Put(input *types.PutItemInput) (map[string]*types.Item, error) {
 		}, t.getItem(key))
 
 		if !matched {
-			return item, types.NewError("ConditionalCheckFailedException", ErrConditionalRequestFailed.Error(), nil)
+			return item, conditionalCheckFailed(input.ReturnValuesOnConditionCheckFailure, t.getItem(key))
 		}
 	}
 
@@ -781,7 +781,7 @@ func (t *Table) Delete(input *types.DeleteItemInput) (map[string]*types.Item, er
 		}, t.getItem(key))
 
 		if !matched {
-			return nil, types.NewError("ConditionalCheckFailedException", ErrConditionalRequestFailed.Error(), nil)
+			return nil, conditionalCheckFailed(input.ReturnValuesOnConditionCheckFailure, t.getItem(key))
 		}
 	}
 
@@ -866,6 +866,16 @@ func (t *Table) IndexesDescription() ([]types.GlobalSecondaryIndexDescription, [
 	}
 
 	return gsi, lsi
+}
+
+// conditionalCheckFailed is the error of a put or delete whose condition is false; it carries the
+// stored item when the request asks for it
+func conditionalCheckFailed(returnValues *string, stored map[string]*types.Item) error {
+	if types.StringValue(returnValues) == "ALL_OLD" {
+		return &types.ConditionalCheckFailedException{MessageText: ErrConditionalRequestFailed.Error(), Item: stored}
+	}
+
+	return types.NewError("ConditionalCheckFailedException", ErrConditionalRequestFailed.Error(), nil)
 }
 
 func handleConditionalCheckError(input *types.UpdateItemInput, checkErr *types.ConditionalCheckFailedException, item map[string]*types.Item) {
